@@ -78,6 +78,7 @@ func aggregationSuite(depth int) hlib.Suite {
 				names = append(names, fmt.Sprintf("%s%d", opAlpha[i].kind, opAlpha[i].d))
 			}
 			input := strings.Join(names, " ")
+			r.SampleCase(input)
 			lastS, lastF := uint64(0), uint64(0)
 			for _, i := range seq {
 				o := opAlpha[i]
@@ -149,6 +150,7 @@ func measurementSuite() hlib.Suite {
 							}
 							r.Eval()
 							input := fmt.Sprintf("mode=%s body=%s cleanup=%s queued-behind-busy-worker=%v fails=%v", mode, body, cleanup, queued, fails)
+							r.SampleCase(input)
 							rs := &hlib.RunSpec{Mode: mode, Quiet: true, CompletionTimeout: time.Second,
 								Opts: options.RunOptions{MaxDuration: 10 * time.Second, Concurrency: 1, MaxIterations: 3, IgnoreDropped: true}}
 							if mode == "constant" {
@@ -234,6 +236,7 @@ func progressSuite() hlib.Suite {
 				for _, rate := range []string{"1/100ms", "3/100ms"} {
 					r.Eval()
 					input := fmt.Sprintf("body=%s cleanup=%s rate=%s", body, cleanup, rate)
+					r.SampleCase(input)
 					var snap progress.Snapshot
 					out := vrt.RunDefault(func() {
 						rs := &hlib.RunSpec{Mode: "constant", Quiet: true, CompletionTimeout: time.Second, Flags: map[string]string{"rate": rate, "distribution": "none"},
